@@ -78,7 +78,7 @@ def scenarios(rng, n, tier):
                 d = rng.choice([0, 0, p // 3, p, p + p // 2, 3 * p, rng.randint(0, 2 * p)])
                 d = d // 1000 * 1000 + (i + 1) * 7 if d else 0       # per-job sub-millisecond offset
                 acts = [["sl", d]] if d or rng.random() < 0.3 else []
-                runs.append({"acts": acts, "raises": rng.random() < 0.2})
+                runs.append({"acts": acts, "raises": (rng.choice(impl_aio.AIO_EXC) if rng.random() < 0.2 else False)})
             o["runs"] = runs
             scn["ops"].append(o)
             periods.append(p)
@@ -120,7 +120,8 @@ def runner(scn):
 
 
 def specs(r):
-    qs = []
+    from .. import aiomix
+    qs = aiomix.idle_specs(r)
     scn = r["scn"]
     ev = per_job_events(r["obs"])
     for k, evs in ev.items():
